@@ -442,6 +442,34 @@ def make_case(seed, size='small', features=None, gens=None):
             "features": sorted(k for k, v in f.items() if v), "unreach_mode": g.unreach_mode, "travel_only": bool(f.get('travel_only')), "metric": g.metric}
 
 
+def long_tours(case):
+    """The same problem reshaped so that few vehicles drive long tours (20+ activities): generous capacity, two-day shifts, no tour limits,
+    most time windows dropped.  Code paths that depend on the length of a tour (sampled leg selection, string removal, re-sequencing) are
+    not reached by the short tours of the other strata."""
+    c = copy.deepcopy(case)
+    c['id'] = case['id'] + 'L'
+    r = random.Random(case['seed'] * 31 + 7)
+    for vt in c['problem']['fleet']['vehicles']:
+        vt['capacity'] = [200 for _ in vt['capacity']]
+        vt.pop('limits', None)
+        vt['shifts'] = vt['shifts'][:1]
+        sh = vt['shifts'][0]
+        sh['start'].pop('latest', None)
+        if 'end' in sh:
+            start = datetime.datetime.strptime(sh['start']['earliest'], '%Y-%m-%dT%H:%M:%SZ')
+            sh['end']['latest'] = (start + datetime.timedelta(seconds=200000)).strftime('%Y-%m-%dT%H:%M:%SZ')
+        sh.pop('breaks', None)
+    for j in c['problem']['plan']['jobs']:
+        for key in ('pickups', 'deliveries', 'replacements', 'services'):
+            for t in j.get(key, []):
+                for pl in t['places']:
+                    if r.random() < 0.85:
+                        pl.pop('times', None)
+    c['features'] = sorted((set(c.get('features', [])) - {'breaks', 'limits', 'multishift', 'travel_only'}) | {'long-tours'})
+    c['travel_only'] = False
+    return c
+
+
 def _metric(case):
     """triangle inequality for all matrices (durations and distances), no unreachable entries"""
     for m in case["matrices"]:
